@@ -349,7 +349,7 @@ def run_check(pid, tier="quick", seed=None, replay=None):
         if not ok:
             problems.append(dict(layer="L2-build", what="correspondence harness %s:%s no longer builds against the working tree" % (h["pkg"], h["test"]), detail=bout[-1500:]))
             continue
-        hout = os.path.join(out_dir, h["test"])
+        hout = os.path.join(out_dir, h["pkg"].replace("/", "_") + "." + h["test"])
         os.makedirs(hout)
         rc, out = run_harness(pid, h, binp, hout, seed, tier, replay, log)
         rp = os.path.join(hout, "result.json")
@@ -469,8 +469,10 @@ def run_check(pid, tier="quick", seed=None, replay=None):
     cov.update(hook_cov)
     ev = dict(property_id=pid, tier=tier, seed=int(seed), level="proof", coverage=cov,
               assumptions=spec["trusted_base"], wall_s=round(time.time() - t0, 2), violations=nviol)
-    os.makedirs(os.path.join(VERIF, "evidence"), exist_ok=True)
-    json.dump(ev, open(os.path.join(VERIF, "evidence", pid + ".json"), "w"), indent=1, sort_keys=True)
+    # evidence of runs against another checkout (VERIF_REPO=..., used for seeded changes) must not replace the evidence of /repo
+    evdir = os.environ.get("VERIF_EVIDENCE_DIR") or (os.path.join(VERIF, "evidence") if REPO == "/repo" else os.path.join(BUILD, "evidence-other"))
+    os.makedirs(evdir, exist_ok=True)
+    json.dump(ev, open(os.path.join(evdir, pid + ".json"), "w"), indent=1, sort_keys=True)
     with open(os.path.join(out_dir, "log.txt"), "w") as f:
         f.write("\n\n".join(log))
     for line in printed:
